@@ -515,6 +515,15 @@ def gen_alloc():
 SECTIONS["Alloc"] = gen_alloc
 
 
+def gen_format():
+    """C01: configuration / ring-buffer / context-table constants (tools/gen_format.py)."""
+    import gen_format as _gf
+    return _gf.generate()
+
+
+SECTIONS["Format"] = gen_format
+
+
 def render(section):
     lines = SECTIONS[section]()
     hdr = ["(* GENERATED by tools/gen_tables.py from %s/src -- do not edit. *)" % REPO,
